@@ -2073,6 +2073,10 @@ pub struct SstMultiBuilder {
     options: SstOptions,
     builder: Option<SstBuilder>,
     paths: Vec<PathBuf>,
+    // The most recent key accepted by any of the builders.  Each SstBuilder only knows the keys of
+    // its own file, so the order across a roll-over is enforced here.
+    last_key: Vec<u8>,
+    last_timestamp: u64,
 }
 
 impl SstMultiBuilder {
@@ -2085,7 +2089,31 @@ impl SstMultiBuilder {
             options,
             builder: None,
             paths: Vec::new(),
+            last_key: Vec::new(),
+            last_timestamp: u64::MAX,
         }
+    }
+
+    fn enforce_sort_order(&self, key: &[u8], timestamp: u64) -> Result<(), SError> {
+        if KeyRef::new(&self.last_key, self.last_timestamp).cmp(&KeyRef::new(key, timestamp))
+            != Ordering::Less
+        {
+            SORT_ORDER.click();
+            Err(sort_order(
+                self.last_key.clone(),
+                self.last_timestamp,
+                key.to_vec(),
+                timestamp,
+            ))
+        } else {
+            Ok(())
+        }
+    }
+
+    fn assign_last_key(&mut self, key: &[u8], timestamp: u64) {
+        self.last_key.clear();
+        self.last_key.extend_from_slice(key);
+        self.last_timestamp = timestamp;
     }
 
     /// Provide a hint that this would be a good spot to split to create a new sst.
@@ -2131,11 +2159,22 @@ impl Builder for SstMultiBuilder {
     }
 
     fn put(&mut self, key: &[u8], timestamp: u64, value: &[u8]) -> Result<(), SError> {
-        self.get_builder()?.put(key, timestamp, value)
+        // Refuse bad input before a roll-over starts a new file for it.
+        check_key_len(key)?;
+        check_value_len(value)?;
+        self.enforce_sort_order(key, timestamp)?;
+        self.get_builder()?.put(key, timestamp, value)?;
+        self.assign_last_key(key, timestamp);
+        Ok(())
     }
 
     fn del(&mut self, key: &[u8], timestamp: u64) -> Result<(), SError> {
-        self.get_builder()?.del(key, timestamp)
+        // Refuse bad input before a roll-over starts a new file for it.
+        check_key_len(key)?;
+        self.enforce_sort_order(key, timestamp)?;
+        self.get_builder()?.del(key, timestamp)?;
+        self.assign_last_key(key, timestamp);
+        Ok(())
     }
 
     fn seal(mut self) -> Result<Vec<PathBuf>, SError> {
